@@ -7,6 +7,8 @@ void run_s2(const std::string& op, const std::string& fam, const MeshIn& in, Cur
   Ctx<ShapeT> cx(in);
   if(op == "vol") { op_vol<ShapeT>(cx, c, o); return; }
   if(op == "unmap") { op_unmap<ShapeT>(in, c, o); return; }
+  if(op == "newton") { op_newton<ShapeT>(in, c, o); return; }
+  if(op == "volq") { op_volq<ShapeT>(cx, c, o); return; }
   if(op == "trcfg") { op_trcfg<ShapeT>(cx, c, o); return; }
   if(fam == "L1") { Ops<ShapeT, FamL1>::run(op, cx, c, o); return; }
   if(fam == "L2") { Ops<ShapeT, FamL2>::run(op, cx, c, o); return; }
